@@ -279,7 +279,7 @@ QUICK_TEMPLATES = {
     "C10": "and_skip and_eval or_skip or_eval and_and cond_arms cond_arms_f chain3_default if_unit unless_f".split(),
     "C17": "ident ident_arith ident_two ident_in_input side_effect_host apply_host cond_arms and_skip".split(),
     "C20": None,
-    "C18": None,
+    "C18": "v_sub_chain_tight v_sub_chain_annotation v_sub_chain_comment v_sub_chain_parens v_sub_chain_sidefx v_sub_chain_sidefx_lead v_list_pairs_parens v_list3_trailing v_if_else_tight v_apply_annotation v_subexpr_trailing v_subexpr_comment v_list3_lines_trailing v_list3_line_comments v_sub_chain_lines_lead_trailing vp_sub_mul vp_pair_pair vp_and_or".split(),
 }
 
 
